@@ -270,6 +270,53 @@ def ill_typed_and_limit(out, rng):
                                              % (m.type, size, MAX_MESSAGE_LENGTH, e), {'component': 'limit', 'size': size}))
             except Exception as e:  # noqa: BLE001
                 out.failures.append(('limit-raises:' + type(e).__name__, 'a %s payload of %d bytes: %r' % (m.type, size, e), {'component': 'limit', 'size': size}))
+    # what the encoders hand out belongs to the caller: using it (decoding it, appending to it, emptying it) must not change what a later
+    # call returns - neither for the length prefix helper nor for bytes() of a message
+    from mido.midifiles import meta as meta_mod
+
+    def ref_vlq(v):
+        groups = [v & 0x7f]
+        v >>= 7
+        while v:
+            groups.append((v & 0x7f) | 0x80)
+            v >>= 7
+        return groups[::-1]
+    for v in [0, 1, 127, 128, 129, 255, 300, 16383, 16384, 2 ** 21 - 1, 2 ** 21, 2 ** 28 - 1]:
+        for use in ('decode', 'append', 'clear', 'overwrite'):
+            n += 1
+            try:
+                a = meta_mod.encode_variable_int(v)
+                if list(a) != ref_vlq(v):
+                    out.failures.append(('vlq-wrong', 'encode_variable_int(%d) = %r, expected %r' % (v, list(a), ref_vlq(v)), {'component': 'fresh-results', 'value': v}))
+                    continue
+                try:
+                    if use == 'decode':
+                        meta_mod.decode_variable_int(a)
+                    elif use == 'append':
+                        a.append(0)
+                    elif use == 'clear':
+                        del a[:]
+                    else:
+                        a[0] = 0x7f
+                except (TypeError, AttributeError):
+                    pass                                  # an immutable result cannot be shared harmfully
+                b = meta_mod.encode_variable_int(v)
+                if list(b) != ref_vlq(v):
+                    out.failures.append(('vlq-shared-result', 'after the caller used (%s) the list returned by encode_variable_int(%d), the next call returns %r, expected %r'
+                                         % (use, v, list(b), ref_vlq(v)), {'component': 'fresh-results', 'value': v, 'use': use}))
+                if v <= 20000:
+                    m = mido.MetaMessage('text', text='x' * v)
+                    bs = m.bytes()
+                    k = len(ref_vlq(v))
+                    if bs[:2] != [0xff, 0x01] or bs[2:2 + k] != ref_vlq(v) or len(bs) != 2 + k + v:
+                        out.failures.append(('length-field:meta1', 'a text of %d characters encodes with the header %r (after the caller used an earlier length prefix: %s)'
+                                             % (v, bs[:6], use), {'component': 'fresh-results', 'value': v, 'use': use}))
+                    bs.append(7); del bs[:3]
+                    if m.bytes()[:2 + k] != [0xff, 0x01] + ref_vlq(v):
+                        out.failures.append(('bytes-shared-result', 'bytes() of a text of %d characters changed after the caller modified the list an earlier call returned' % v,
+                                             {'component': 'fresh-results', 'value': v}))
+            except Exception as e:  # noqa: BLE001
+                out.failures.append(('fresh-results-raises:' + type(e).__name__, 'length prefix of %d (%s): %r' % (v, use, e), {'component': 'fresh-results', 'value': v}))
     out.evaluations += n
     out.components['ill-typed values and the reader limit (implementation against the statement)'] = {'cases': n}
 
